@@ -1044,9 +1044,23 @@ def rule_EQ1(ctx):
                         for y in ast.walk(side):
                             if isinstance(y, ast.Attribute) and y.attr in lossy and ast.unparse(y.value) in (['self'] + f.params()[1:2]):
                                 bad = x
+            # the operand compared as it came in (before promotion): its own type's == decides then - a memoryview compares unpacked
+            # ITEMS and counts items in len(), an array.array compares values - not the bits a promotion would give
+            raw = None
+            op_name = f.params()[1] if len(f.params()) > 1 else None
+            for x in own_walk(f.node):
+                if isinstance(x, ast.Compare) and any(isinstance(o, (ast.Eq, ast.NotEq)) for o in x.ops) and op_name:
+                    sides = [x.left] + x.comparators
+                    if any(isinstance(sd, ast.Name) and sd.id == op_name for sd in sides) and any(
+                            any(isinstance(y, ast.Name) and y.id == 'self' for y in ast.walk(sd)) for sd in sides):
+                        raw = x
             if bad is not None and 'len(' not in ast.unparse(bad):
                 r.fail(f.key, bad, 'equality is decided on a zero-padded serialisation without the length: bitstrings of different lengths '
                        '(and a bitstring and unequal bytes) compare equal', loc=f.loc(bad))
+            elif raw is not None:
+                r.fail(f.key, raw, f"== compares something of self with the operand '{op_name}' as it came in, before promotion: the operand's own type "
+                       'then decides (a memoryview compares unpacked items and counts items, not bytes), so x == v and x == Bits(v) can differ',
+                       loc=f.loc(raw))
             else:
                 r.ok(f'{c}.__eq__')
     bs = m.classes['BitStore'].methods.get('__eq__')
